@@ -500,6 +500,17 @@ C15_ResumeAfterReport ==
         IN /\ b.state = "P" /\ b.paused /\ b.pendSnap = 0 /\ b.pendReqSnap = 0
            /\ b.next = Max(a.matched, IF evt.a.ok THEN a.pendSnap ELSE 0) + 1
 
+(* safety is preserved across an install: the leader of the installing node's term has not been told that the
+   node holds entries beyond the snapshot (an install resets the log to the snapshot index; F5) *)
+C15_InstallKeepsAcked ==
+    Installed =>
+        \A ld \in DOMAIN node :
+            (up[ld] /\ ld # an /\ node[ld].role = "L" /\ node[ld].term = Q.term /\ an \in DOMAIN node[ld].pr) =>
+                node[ld].pr[an].matched <= M.snap.i
+
+(* handling a snapshot message never brings the node down, whatever the snapshot *)
+C15_SnapshotNeverCrashes == IsDeliver("Snap") => evt.rk # "panic"
+
 C15_SnapshotState ==
     (IsRdEvent /\ evt.ev = "Ready" /\ evt.rd.snap.i > 0) =>
         LET x == Lookup(gh.smAt, evt.rd.snap.i)
@@ -631,6 +642,8 @@ Violations ==
     \cup Chk("C15.MatchingSnapshotKeepsLog", C15_MatchingSnapshotKeepsLog)
     \cup Chk("C15.SendOnlyIfNeeded", C15_SendOnlyIfNeeded) \cup Chk("C15.ResumeAfterReport", C15_ResumeAfterReport)
     \cup Chk("C15.SnapshotState", C15_SnapshotState)
+    \cup Chk("C15.InstallKeepsAcked", C15_InstallKeepsAcked)
+    \cup Chk("C15.SnapshotNeverCrashes", C15_SnapshotNeverCrashes)
     \cup Chk("C16.PreVoteReqInert", C16_PreVoteReqInert) \cup Chk("C16.NoSelfTermBump", C16_NoSelfTermBump)
     \cup Chk("C16.NoDisruption", C16_NoDisruption)
     \cup Chk("C17.TimeoutNowOnlyWhenCaughtUp", C17_TimeoutNowOnlyWhenCaughtUp)
